@@ -23,6 +23,9 @@ receiver histories (sub-check 'receiver'): ONE live object through  op1 (twice, 
 same-target histories ('same-target'): obj.sample(T) -> in-place setter on the SAME target Grid object T (center_,
           origin_, spacing_, direction_, align_corners_), or in-place change of the object's own grids, or nothing ->
           obj.sample(T) again with the same objects (single grid and per-item list; judged against T's new geometry)
+layout ('layout'): the data tensor wrapped by the initial object given as transposed view / step-sliced view / stride-0
+          expanded batch (ref/layout.py); chains of <= 2 operations applied to the live results; oracle = the same chain on
+          the contiguous form (differential), operand unchanged (bits and _version of the view and of its base buffer)
 copy histories ('copy'): c = obj.clone() | torch.clone(obj) | copy.deepcopy(obj) | copy.copy(obj); in-place edit (grid
           setters / grid_ + data re-fill) of the original (resp. of the copy); the OTHER object must be bit-unchanged
           and every operation on it in lock-step with its own grid (copy.copy: fully independent or fully shared,
@@ -40,6 +43,7 @@ from mc.core import Acc, exc_text, guarded, h64
 from ref import grid as rg
 from ref import interp as ri
 from ref.grid import RefGrid
+from ref import layout as rl
 
 # imported here (not lazily) so that the freshly forked shard processes inherit the loaded modules (~1 s per process)
 import deepali.data  # noqa: F401,E402
@@ -57,7 +61,10 @@ RULE = (
     "alphabet in thorough, op2 reduced alphabet), each op also repeated on the same receiver; sample(T) / setter on the same "
     "target object T or on the object's grids / sample(T) again (3 targets x 13 changes x single grid or per-item list); "
     "copies (clone(), torch.clone, deepcopy, copy) x edit of original or copy (4 edits) x every operation of the reduced "
-    "alphabet on the other object"
+    "alphabet on the other object; layout: chains of length <= 2 on the LIVE results (reduced alphabet, then one form per "
+    "mechanism) starting from an object whose wrapped data tensor is a transposed view / step-sliced view / stride-0 expanded "
+    "batch, on 4 configurations, compared with the same chain on the contiguous form (no exception, same type / grids, "
+    "values within 64 ulp of the channel maximum per step, data tensor and its base unchanged incl. _version)"
 )
 EXPLANATION = "bounded explicit-state exploration of Image/ImageBatch/FlowFields operation chains carrying world-coordinate ramps"
 ASSUMPTIONS = [
@@ -78,7 +85,7 @@ ASSUMPTIONS = [
 # measured: quick 53k chains / 37k outcomes / 21k non-trivial; thorough 464k chains / 328k outcomes / 150k non-trivial
 MIN_NONTRIVIAL = {"quick": 10000, "thorough": 70000}
 MIN_OUTCOMES = {"quick": 18000, "thorough": 160000}
-MIN_SUB_TRACES = {"chain": 25000, "receiver": 9000, "same-target": 400, "copy": 3000}
+MIN_SUB_TRACES = {"chain": 25000, "receiver": 9000, "same-target": 400, "copy": 3000, "layout": 2500}
 
 EPS32 = 2.0 ** -23
 CTOL = 64.0
@@ -265,12 +272,28 @@ def build(cfg):
     return st
 
 
-def make_real(st: St):
-    """Real deepali object of the state (fresh tensor, observed grids)."""
+def make_real(st: St, layout: str = None, keep=None):
+    """Real deepali object of the state (fresh tensor, observed grids). layout: memory layout (ref/layout.py) of the
+    wrapped data tensor; 'expanded' / 'repeat' = every item carries the data of item 0 (stride-0 batch / its copy).
+    keep: list receiving the tensor handed to the constructor."""
     from deepali.core.grid import Axes
     from deepali.data import FlowField, FlowFields, Image, ImageBatch
 
     t = torch.from_numpy(st.data.copy())
+    if layout is not None:
+        single = st.cls in ("Image", "FlowField")
+        if layout in ("expanded", "repeat"):
+            if single or st.N < 2:
+                raise LayoutNotApplicable(layout)
+            t = rl.relayout(t[0], layout, n=st.N)
+        else:
+            base = t[0] if single else t
+            if not rl.applicable(base, layout):
+                raise LayoutNotApplicable(layout)
+            base = rl.relayout(base, layout)
+            t = base.unsqueeze(0) if single else base
+    if keep is not None:
+        keep.append(t)
     if st.cls == "Image":
         return Image(t[0], st.real_grids[0])
     if st.cls == "ImageBatch":
@@ -278,6 +301,10 @@ def make_real(st: St):
     if st.cls == "FlowFields":
         return FlowFields(t, list(st.real_grids), Axes(st.axes))
     return FlowField(t[0], st.real_grids[0], Axes(st.axes))
+
+
+class LayoutNotApplicable(Exception):
+    pass
 
 
 def state_key(st: St) -> int:
@@ -486,6 +513,7 @@ def bounds(tier):
         "reduced_alphabet": len(reduced_alphabet(2, "ImageBatch", 2)),
         "chains": "quick: full x medium; thorough: full x medium for all 32 configurations, full x full for ImageBatch(N=2) on 8 grids, full x reduced x reduced for ImageBatch(N=2) on 4 grids",
         "depth_total": 2 if tier == "quick" else 3,
+        "layout": {"forms": LAYOUT_FORMS, "configurations": 4, "chain_length": 2},
         "object_histories": {"in_place_changes": len(MID_FORMS), "same_target_changes": len(LIVE_MIDS), "live_targets": len(LIVE_TARGETS),
                              "copy_forms": len(COPY_FORMS), "copy_edits": len(COPY_EDITS)},
         "max_size_per_axis": MAXN,
@@ -2106,6 +2134,118 @@ def run_copy_shard(acc: Acc, cfg, tier, form):
                                 [[form], ["edit", edited, list(edit)], op2])
 
 
+# memory layout of the data wrapped by the object the chain starts from ---------------------------------------------------
+LAYOUT_FORMS = ["transposed", "sliced", "expanded"]
+
+
+def _live_chain(st0: St, ops, layout):
+    """Apply ops one after the other to the LIVE results, starting from an object whose data has the given layout.
+    Returns (results per step as (class name, data, grid fingerprints, axes) or the exception, input tensor)."""
+    keep = []
+    obj = make_real(st0, layout, keep)
+    t_in = keep[0]
+    b = t_in._base if t_in._base is not None else t_in
+    fp = (t_in._version, b._version, t_in.detach().contiguous().numpy().tobytes(), b.detach().contiguous().numpy().tobytes())
+    outs = []
+    cur, cur_st = obj, st0
+    for op in ops:
+        stt, res = guarded(impl_call, cur, cur_st, op)
+        if stt == "raises":
+            outs.append(res)
+            break
+        if isinstance(res, dict):
+            lv = op[1].get("level")
+            if lv not in res:
+                outs.append(KeyError("level"))
+                break
+            res = res[lv]
+        cname, data, grids, axes = observe(res, st0)
+        if data is None:
+            outs.append(TypeError(cname))
+            break
+        outs.append((cname, data.copy(), [receiver_fingerprint_grid(g) for g in grids], axes))
+        # state stub for the next call (impl_call only needs class / D / N / the live grids of the receiver)
+        nxt = st0.copy_meta()
+        nxt.N = data.shape[0]
+        nxt.grids = [RefGrid.from_real(g) for g in grids]
+        nxt.real_grids = grids
+        nxt.data, nxt.masks = data, None
+        cur, cur_st = res, nxt
+    b2 = t_in._base if t_in._base is not None else t_in
+    fp2 = (t_in._version, b2._version, t_in.detach().contiguous().numpy().tobytes(), b2.detach().contiguous().numpy().tobytes())
+    return outs, fp2 != fp
+
+
+def layout_chain(cfg, ops, form):
+    """Chain on an object with non-contiguous data vs the same chain on the contiguous form.
+    Returns (problems, status) with status in {'n/a', 'ok', 'bitwise'}."""
+    st0 = build(cfg)
+    ref_form = "repeat" if form == "expanded" else "contig"
+    try:
+        ref, _ = _live_chain(st0, ops, ref_form)
+        got, mutated = _live_chain(build(cfg), ops, form)
+    except LayoutNotApplicable:
+        return [], "n/a"
+    if any(isinstance(r, BaseException) for r in ref) or len(ref) < len(ops):
+        return [], "n/a"  # the contiguous chain itself raises / is not enabled: reported (or excluded) by the chains
+    probs = []
+    if mutated:
+        probs.append(("operand-mutated", "the data tensor handed to the constructor (or its base buffer) was modified (bits or _version)"))
+    bit = True
+    for k, (r, g) in enumerate(zip(ref, got)):
+        where = f"step {k + 1} ({op_sig(ops[k])})"
+        if isinstance(g, BaseException):
+            probs.append((raise_tag(g), f"{where}: " + exc_text(g)))
+            break
+        if g[0] != r[0] or g[3] != r[3]:
+            probs.append(("type", f"{where}: {g[0]}/{g[3]} vs contiguous {r[0]}/{r[3]}"))
+            break
+        if g[1].shape != r[1].shape:
+            probs.append(("shape", f"{where}: {g[1].shape} vs contiguous {r[1].shape}"))
+            break
+        if g[2] != r[2]:
+            probs.append(("grid", f"{where}: returned grids differ from those of the contiguous form"))
+            break
+        a, b = g[1].astype(np.float64), r[1].astype(np.float64)
+        C = b.shape[1]
+        scale = np.abs(b).reshape(b.shape[0], C, -1).max(axis=2).max(axis=0)  # per channel
+        tol = CTOL * EPS32 * (k + 1) * np.maximum(scale, 1e-30)
+        d = np.abs(a - b).reshape(b.shape[0], C, -1).max(axis=2).max(axis=0)
+        if not np.all(d <= tol):
+            c = int(np.argmax(d - tol))
+            probs.append(("value", f"{where}: channel {c} differs from the contiguous form by {d[c]:.4g} > tol {tol[c]:.2e}"))
+            break
+        bit &= g[1].tobytes() == r[1].tobytes()
+    if len(got) < len(ref) and not probs:
+        probs.append(("shape", "chain ended early"))
+    return probs, ("bitwise" if bit else "ok")
+
+
+def layout_sig(ks, ops, form, kind) -> str:
+    return f"C04/layout/{'>'.join(op_sig(o) for o in ops)}/{ks}/layout={form}/{kind}"
+
+
+def run_layout_shard(acc: Acc, cfg, tier, form):
+    st0 = build(cfg)
+    ks = kind_sig(st0)
+    first, second = recv_ops(st0.D, st0.cls, st0.N, "quick")  # second = reduced alphabet, first = one form per mechanism
+    chains = [[op] for op in second] + [[op1, op2] for op1 in second for op2 in first]
+    for ops in chains:
+        probs, status = layout_chain(cfg, ops, form)
+        if status == "n/a":
+            acc.undef("layout:contiguous-chain-not-enabled-or-form-not-applicable")
+            continue
+        acc.trans(2 * len(ops))
+        acc.trace("layout", depth=len(ops))
+        acc.info["layout_bit_identical"] = acc.info.get("layout_bit_identical", 0) + (1 if status == "bitwise" else 0)
+        case = {"cfg": cfg, "layout": {"ops": ops, "form": form}}
+        for kind, detail in probs:
+            acc.violation(layout_sig(ks, ops, form, kind), case, detail, size=len(ops))
+        acc.outcome("layout", ks, repr(cfg["grid"]["size"]), form, repr(ops), probs[0][0] if probs else status)
+        if not probs:
+            acc.nontriv("layout", ks, repr(cfg["grid"]["size"]), form, repr(ops))
+
+
 def _groups(n, per):
     return [list(range(i, min(i + per, n))) for i in range(0, n, per)]
 
@@ -2125,12 +2265,25 @@ def shards(tier: str, seed: int):
         out.append({"tier": tier, "seed": seed, "cfg": i, "live": True})
         for form in COPY_FORMS:
             out.append({"tier": tier, "seed": seed, "cfg": i, "copy": form})
+    for j in range(len(layout_cfgs(seed))):
+        for form in LAYOUT_FORMS:
+            out.append({"tier": tier, "seed": seed, "lcfg": j, "layout": form})
     return out
+
+
+def layout_cfgs(seed):
+    """Configurations of the layout sub-check (the same in both tiers): 2-D ImageBatch N=2, 2-D Image, 2-D FlowFields
+    N=2 in world axes, 3-D ImageBatch N=2."""
+    specs = grid_specs("quick", seed)
+    return [{"grid": specs[i], "kind": k, "seed": seed, "plans": []} for i, k in ((0, "Batch2"), (1, "Image"), (2, "Flow2:world"), (6, "Batch2"))]
 
 
 def run_shard(shard) -> Acc:
     acc = Acc()
     tier = shard["tier"]
+    if "layout" in shard:
+        run_layout_shard(acc, layout_cfgs(shard["seed"])[shard["lcfg"]], tier, shard["layout"])
+        return acc
     cfg = configs(tier, shard["seed"])[shard["cfg"]]
     if "recv" in shard:
         run_receiver_shard(acc, cfg, tier, tuple(shard["recv"]))
@@ -2177,6 +2330,12 @@ def replay(case):
         probs, _, _, _ = live_history(cfg, h["target"], h["per_item"], mid, h["extra"])
         ks = kind_sig(build(cfg))
         return [(live_sig(ks, h["target"], h["per_item"], mid, h["extra"], kind), detail) for kind, detail in probs]
+    if "layout" in case:
+        h = case["layout"]
+        ops = [(o[0], o[1]) for o in h["ops"]]
+        probs, _ = layout_chain(cfg, ops, h["form"])
+        ks = kind_sig(build(cfg))
+        return [(layout_sig(ks, ops, h["form"], kind), detail) for kind, detail in probs]
     if "copy" in case:
         h = case["copy"]
         op2 = (h["op2"][0], h["op2"][1])
